@@ -35,9 +35,16 @@ SetCmds(q, req, scalar, sel) ==
   IF q = "freq" THEN << [verb |-> Verb[q], ch |-> 0, val |-> Clamp(q, req[1])] >>
   ELSE LET chs == Channels(sel)  rq == Requests(req, scalar, chs) IN
        [i \in 1..Len(rq) |-> [verb |-> Verb[q], ch |-> chs[i], val |-> Clamp(q, rq[i])]]
-SetWarn(q, req, scalar, sel) ==
-  (q # "freq" /\ ChWarn(sel)) \/
-  (LET vals == IF q = "freq" \/ scalar THEN <<req[1]>> ELSE req IN \E i \in 1..Len(vals) : ~InRange(q, vals[i]))
+\* warning: MUST be issued when a channel is out of range or a request that is actually used is out of range; MUST NOT be issued
+\* when every channel and every request element is in range; not fixed when only request elements that no channel consumes are out
+\* of range (a per-channel list longer than the channel selection)
+UsedVals(q, req, scalar, sel) == IF q = "freq" \/ scalar THEN <<req[1]>> ELSE Requests(req, scalar, Channels(sel))
+MustWarn(q, req, scalar, sel) ==
+  (q # "freq" /\ ChWarn(sel)) \/ (LET u == UsedVals(q, req, scalar, sel) IN \E i \in 1..Len(u) : ~InRange(q, u[i]))
+MustNotWarn(q, req, scalar, sel) ==
+  ~(q # "freq" /\ ChWarn(sel)) /\ (LET vals == IF q = "freq" \/ scalar THEN <<req[1]>> ELSE req IN \A i \in 1..Len(vals) : InRange(q, vals[i]))
+SetWarn(q, req, scalar, sel) == MustWarn(q, req, scalar, sel)
+WarnOK(q, req, scalar, sel, warned) == (MustWarn(q, req, scalar, sel) => warned) /\ (MustNotWarn(q, req, scalar, sel) => ~warned)
 CmdOK(c) == /\ (c.verb = "FREQ" => c.ch = 0) /\ (c.verb # "FREQ" => c.ch \in 1..NCh)
             /\ \E q \in DOMAIN Verb : Verb[q] = c.verb /\ InRange(q, c.val)
 
